@@ -25,7 +25,9 @@ from beartype._data.typing.datatypingport import (
 )
 from beartype._util.hint.pep.proposal.pep484.pep484604union import (
     make_hint_pep484604_union)
+from beartype._data.hint.sign.datahintsignset import HINT_SIGNS_UNION
 from beartype._util.hint.pep.utilpepget import get_hint_pep_args
+from beartype._util.hint.pep.utilpepsign import get_hint_pep_sign_or_none
 from typing import Optional
 
 # ....................{ TESTERS                            }....................
@@ -283,7 +285,27 @@ def reduce_hint_pep484604_union(
         # *NOT* ignorable. Ergo, this union itself is *NOT* ignorable. Instead,
         # this union is semantically equivalent to the builtin "int" type.
         elif hint_child_sane is HINT_SANE_RECURSIVE:
-            pass
+            # If the parent of this union is *NOT* itself a union, this union is
+            # *NOT* the value of a directly recursive union alias (e.g., "type
+            # RecursiveUnion = int | RecursiveUnion") but rather a child of some
+            # other hint of a recursive alias (e.g., the "RecursiveList | int"
+            # in "type RecursiveList = list[RecursiveList | int]"). In this
+            # case, this recursive child is a meaningful member of this union
+            # whose meaning simply cannot be expressed at this recursion depth.
+            # Silently dropping this child would narrow this union to its
+            # remaining members (e.g., reducing the above alias to
+            # "list[list[int] | int]"), erroneously rejecting valid objects
+            # nested more deeply than that (e.g., "[[[1]]]"). Ignore this union
+            # in entirety instead (e.g., reducing the above alias to
+            # "list[list | int]").
+            if (
+                hint_parent_sane is not None and
+                get_hint_pep_sign_or_none(hint_parent_sane.hint) not in (
+                    HINT_SIGNS_UNION)
+            ):
+                return HINT_SANE_IGNORABLE
+            # Else, the parent of this union is itself a union. In this case,
+            # this recursive child is vacuous as detailed above. Drop it.
         # Else, this child hint is non-recursive.
         #
         # If metadata encapsulates the reduction of this child hint...
